@@ -32,12 +32,16 @@ What is proved about the LINK (bytes -> messages):
   framing, and C04's code model `Proto.run` of `dataReceived` delivers exactly the well-formed messages written,
   however the bytes are cut (composition of C04 `binary_partition_independent` / `frames_of_messages`).
 
+What is proved about INTROSPECTED proxies and BYTES (added later):
+* `C11_call_through_introspected_proxy` - the headline without an agreement hypothesis, for a proxy built by
+  introspection: composition with C15 `handler_gen_fresh` (fresh cache or replacement requested);
+* `bytes_run_simulated`, `C11_bytes_any_delivery_order_partial` - a byte-level network over C04's code model of
+  `dataReceived`; every byte-level run is matched by a message-level run; byte-level quiescence gives `Completed`.
+
 What is NOT a theorem here (PARTIAL with respect to the statement's wording; see notes/C11.md):
-* the parse half of the link (C03 `marshal_wellformed`, `parse_marshal`) is cited, not composed - values are
-  abstract in this model; there is no byte-level network with a simulation theorem onto the message-level one;
-  the tie is the correspondence check, which cuts the real byte streams arbitrarily;
-* "discovered by introspection": that an introspected proxy AGREES with the exporter is C15's round trip; here
-  `Proxy.AgreesWith` is a hypothesis, checked per run by the harness on the real proxy objects.
+* the codec enters the byte-level theorem through the stated laws `WireCodec.Laws` (C03's `marshal_wellformed`,
+  `parse_marshal` cited, not instantiated: values are abstract here); the handshake before binary mode is outside;
+* the stale-cache case of introspection (name known, no replacement) is excluded by hypothesis;
 -/
 namespace Txdbus.Net
 
@@ -628,6 +632,39 @@ example :
     (net.cl 0).completions = [(1, .timedOut)] ∧ (net.cl 0).late = [1] ∧ (net.cl 0).down = [] ∧
     (net.cl 2).answers = [(some 0, 1, .result "v" 1 (.value (.obj 8)))] := by
   decide
+
+/-! ### the byte-level hypotheses are satisfiable -/
+
+def exCallB : Msg Nat := .call 1 none (some 5) "/o" (some "org.t.I") "echo" "v" [7]
+/-- a 16-byte frame: little-endian, METHOD_CALL, empty body, empty header array -/
+def exFrame : Txdbus.Bytes := [108, 1, 0, 1, 0, 0, 0, 0, 1, 0, 0, 0, 0, 0, 0, 0]
+/-- a codec whose domain is one message -/
+def exCodec : WireCodec Nat := { enc := fun _ => exFrame, dec := fun _ => some exCallB }
+def exAuth : Txdbus.Proto.Auth Unit := ⟨fun a _ => (a, .cont)⟩
+
+/-- `WireCodec.Laws` is satisfiable (on a domain; no codec is lawful on all messages: frames have 32-bit lengths) -/
+example : exCodec.Laws (fun m => m = exCallB) :=
+  ⟨fun m _ => by show Txdbus.Proto.Spec.WellFormed exFrame; decide, fun m hm => by rw [hm]; rfl⟩
+
+/-- one client calls a destination that is not attached; the bus reads the 16 bytes as 7 + 0 + the rest -/
+def exB : BNet Nat Unit :=
+  brun exCodec exAuth exWorld (BNet.init 1 (fun _ => 1) ())
+    [.call 0 (.raw 5 "/o" (some "org.t.I") "echo" "v" [7]), .readBus 0 7, .readBus 0 0, .readBus 0 100]
+
+/-- the hypotheses `hok` and `hq` of `C11_bytes_any_delivery_order_partial` hold for this run: everything serialised
+is in the codec's domain, and the byte-level network ends quiescent (the message was cut off after the third read,
+parsed, stamped and - the destination being unknown - dropped) -/
+example : (∀ m, m ∈ exB.sent → m = exCallB) ∧ exB.Quiescent ∧ exB.dropped = [exCallB.withSender 0] := by
+  have h : exB.sent = [exCallB] ∧ exB.upWire 0 = [] ∧ exB.downWire 0 = [] ∧ (exB.busRx 0).buffer = [] ∧
+      (exB.cliRx 0).buffer = [] ∧ (exB.cl 0).exec = [] ∧ exB.n = 1 ∧ exB.dropped = [exCallB.withSender 0] := by
+    decide +kernel
+  obtain ⟨h1, h2, h3, h4, h5, h6, h7, h8⟩ := h
+  refine ⟨fun m hm => by rw [h1] at hm; simpa using hm, ?_, h8⟩
+  intro j hj
+  rw [h7] at hj
+  have : j = 0 := by omega
+  subst this
+  exact ⟨h2, h3, h4, h5, h6⟩
 
 /-- The model of the bus BEFORE the repair (Net/OldBus.lean), with a re-encoding that raises for the body
 of a `v` call (the implementation: argument `(1, 2**40)`, sent as `(ix)`, re-inferred as `ai`): the call
